@@ -86,7 +86,7 @@ func walDirOf(slot, role string) (string, error) {
 
 // trackAll names every address value can reach, so that flat-mode dumps attribute every account.
 func (w *world) trackAll() {
-	w.c.Track(common.EmptyAddress, txkit.A.Addr, txkit.B.Addr, txkit.C.Addr, txkit.D.Addr, collector, types.MultiSignNonceAddr,
+	w.c.Track(common.EmptyAddress, txkit.A.Addr, txkit.B.Addr, txkit.C.Addr, txkit.D.Addr, whale.Addr, collector, types.MultiSignNonceAddr,
 		w.store, w.reverter, w.vault, w.issuer)
 	// addresses of contracts that creation ops of account A may produce at its next 8 nonces
 	n := w.c.Nonce(txkit.A.Addr)
@@ -268,9 +268,11 @@ func (s *snapshot) restore(slot string) (*world, error) {
 
 // ---- the base state ----------------------------------------------------------------------------------------
 
-// newGenesisWorld: A, B, C own 1,000,000 coins and 1000e18 units of the genesis token each.
+// newGenesisWorld: A, B, C own 1,000,000 coins and 1000e18 units of the genesis token each; E (the whale) owns
+// 3 x (group order x unit) + 100,000 coins.
 func newGenesisWorld(trie bool) (*world, error) {
-	opts := minichain.Options{IsTrie: trie, Alloc: txkit.AllocWithToken(nil, genTok, txkit.LKC(1000)), NoBalanceRecords: true}
+	alloc := append(txkit.AllocWithToken(nil, genTok, txkit.LKC(1000)), minichain.Alloc{Addr: whale.Addr, Balance: whaleBalance()})
+	opts := minichain.Options{IsTrie: trie, Alloc: alloc, NoBalanceRecords: true}
 	c, err := minichain.New(opts)
 	if err != nil {
 		return nil, err
